@@ -154,6 +154,92 @@ def run_case(seed, tier, rec, st):
             tsrc = which
             T = getattr(m, which)
             t = None
+        elif kind < 0.20:
+            # a strategy registered FOR a named type (NewType / PEP 695 alias / Annotated alias): fields spelled with that name,
+            # directly and below List / Optional / Dict, are described by the strategy's annotation; plain fields are not
+            import datetime
+            where = rng.choice(["config", "dialect"])
+            reg = "{Cents: {'serialize': ser_cents, 'deserialize': de_cents}, UnixTime: TS(), Tag: {'serialize': ser_tag}}"
+            fam.exec_src("Cents = NewType('Cents', int)\ntype UnixTime = datetime.datetime\nTag = Annotated[str, 'tag']\n"
+                         "def ser_cents(v) -> str:\n    return f'{v / 100:.2f}'\ndef de_cents(s):\n    return int(float(s) * 100)\n"
+                         "def ser_tag(v) -> List[str]:\n    return v.split(',')\n"
+                         "class TS(SerializationStrategy):\n    def serialize(self, v) -> int:\n        return int(v.replace(tzinfo=datetime.timezone.utc).timestamp())\n"
+                         "    def deserialize(self, v):\n        return datetime.datetime.fromtimestamp(v)\n"
+                         + (f"class DL(Dialect):\n    serialization_strategy = {reg}\n" if where == "dialect" else ""))
+            if rng.random() < 0.3:
+                # ... and one registered under the ORIGIN of a generic type (the serializer tries Annotated form, type, origin)
+                reg = reg[:-1] + ", collections.deque: {'serialize': ser_deque}}"
+                fam.exec_src("def ser_deque(v) -> str:\n    return ','.join(map(str, v))\n")
+                origin_key = True
+            else:
+                origin_key = False
+            pool = ["    dq: Deque[int] = field(default_factory=lambda: collections.deque([1, 2]))"] if origin_key else []
+            pool += ["    c: Cents = Cents(1)", "    t: UnixTime = datetime.datetime(2020, 1, 2)", "    g: Tag = 'a,b'", "    cs: List[Cents] = field(default_factory=lambda: [Cents(5)])",
+                    "    ot: Optional[UnixTime] = datetime.datetime(2021, 1, 1)", "    dt: Dict[str, UnixTime] = field(default_factory=lambda: {'k': datetime.datetime(2022, 2, 2)})",
+                    "    tc: Tuple[Cents, Tag] = (Cents(7), 'x')", "    plain: int = 0", "    pdt: datetime.datetime = datetime.datetime(2020, 1, 1)", "    ps: str = 's'"]
+            nested = rng.random() < 0.4
+            body = "\n".join(rng.sample(pool, rng.randint(3, len(pool)))) + "\n"
+            cfgsrc = "    class Config(BaseConfig):\n" + (f"        serialization_strategy = {reg}\n" if where == "config" else "        dialect = DL\n")
+            fam.exec_src("@dataclass\nclass Priced(DataClassDictMixin):\n" + body + cfgsrc +
+                         ("@dataclass\nclass Order(DataClassDictMixin):\n    lines: List[Priced] = field(default_factory=lambda: [Priced()])\n    first: Priced = field(default_factory=Priced)\n" if nested else ""))
+            facts = {"kind": "strategy-for-a-named-type", "where": where, "nested": nested, "origin_key": origin_key}
+            tsrc = "Order" if nested else "Priced"
+            T = getattr(fam.module, tsrc)
+            values = [T()]
+            t = None
+        elif kind < 0.23:
+            # a generic dataclass deriving from a SPECIALISED generic dataclass and re-using the TypeVar for a parameter of its
+            # own: inherited members keep the parent's argument, own members take the child's
+            import datetime
+            same_tv = rng.random() < 0.7
+            parg, pval = rng.choice([("str", "'a'"), ("datetime.date", "datetime.date(2020, 1, 2)"), ("int", "4"), ("float", "1.5")])
+            carg, cval = rng.choice([("int", "3"), ("datetime.timedelta", "datetime.timedelta(seconds=5)"), ("datetime.date", "datetime.date(2021, 3, 4)"), ("str", "'z'"), ("bool", "True")])
+            U = "T" if same_tv else "U"
+            fam.exec_src("T = TypeVar('T')\nU = TypeVar('U')\n"
+                         "@dataclass\nclass Envelope(Generic[T]):\n    tags: List[T]\n    meta: Dict[str, T] = field(default_factory=dict)\n    one: Optional[T] = None\n"
+                         f"@dataclass\nclass Page(Envelope[{parg}], Generic[{U}]):\n    items: List[{U}] = field(default_factory=list)\n    first: Optional[{U}] = None\n"
+                         f"@dataclass\nclass Book(DataClassDictMixin):\n    p: Page[{carg}]\n    ps: List[Page[{carg}]] = field(default_factory=list)\n"
+                         f"@dataclass\nclass Leafy(Page[{carg}]):\n    extra: int = 0\n")
+            m = fam.module
+            pv, cv = eval(pval, m.__dict__), eval(cval, m.__dict__)
+            which = rng.choice(["Page", "Book", "Leafy"])
+            facts = {"kind": "generic-inheritance", "same_typevar": same_tv, "parent_arg": parg, "child_arg": carg, "root": which}
+            page = lambda cls=None: (cls or m.Page)([pv], {"k": pv}, pv, [cv, cv], cv)
+            if which == "Page":
+                tsrc = f"Page[{carg}]"
+                T = eval(tsrc, m.__dict__)
+                values = [page()]
+            elif which == "Book":
+                tsrc, T, values = "Book", m.Book, [m.Book(page(), [page()])]
+            else:
+                tsrc, T, values = "Leafy", m.Leafy, [page(m.Leafy)]
+            t = None
+        elif kind < 0.26:
+            # Config.json_schema["properties"] is keyed by FIELD NAME, also for members written under an alias (whatever the
+            # source of the alias): the hand-written description replaces the generated one
+            fam.exec_src("class Perm(enum.Flag):\n    R = 1\n    W = 2\n    X = 4\nclass Blob:\n    pass\ndef ser_blob(v):\n    return 'blob'\ndef de_blob(v):\n    return Blob()\n")
+            how = {n: rng.choice(["meta", "ann", "cfg", None]) for n in ("p", "codes", "b")}
+            by_alias = True       # (as everywhere in this check: property names are the aliases, so documents are written by alias)
+            def fld(n, ann, default, extra_meta=""):
+                a = how[n]
+                if a == "ann":
+                    ann = f"Annotated[{ann}, Alias('{n}-A')]"
+                meta = ", ".join(x for x in (f"alias='{n}-A'" if a == "meta" else "", extra_meta) if x)
+                args = ", ".join(x for x in (default, f"metadata=field_options({meta})" if meta else "") if x)
+                return f"    {n}: {ann}" + (f" = field({args})" if args else "") + "\n"
+            cfg_aliases = {n: f"{n}-A" for n, a in how.items() if a == "cfg"}
+            over = {"p": {"type": "integer", "minimum": 0, "maximum": 7}, "b": {"type": "string"}, "codes": {"type": "object", "additionalProperties": {"type": "string"}}}
+            fam.exec_src("@dataclass\nclass Acl(DataClassDictMixin):\n" + fld("p", "Perm", "") + fld("codes", "Dict[int, str]", "default_factory=dict") +
+                         fld("b", "Blob", "default_factory=Blob", "serialize=ser_blob, deserialize=de_blob") + "    q: Perm = Perm.R\n"
+                         "    class Config(BaseConfig):\n" + f"        serialize_by_alias = {by_alias}\n" + (f"        aliases = {cfg_aliases!r}\n" if cfg_aliases else "") +
+                         f"        json_schema = {{'properties': {over!r}}}\n"
+                         "@dataclass\nclass Acls(DataClassDictMixin):\n    items: List[Acl] = field(default_factory=list)\n")
+            m = fam.module
+            facts = {"kind": "override-under-alias", "alias_sources": repr(sorted(how.items())), "by_alias": by_alias}
+            nested = rng.random() < 0.4
+            a1, a2 = m.Acl(m.Perm.R | m.Perm.X, {404: "nf"}), m.Acl(m.Perm.W, {})
+            tsrc, T, values = ("Acls", m.Acls, [m.Acls([a1, a2])]) if nested else ("Acl", m.Acl, [a1, a2])
+            t = None
         else:
             t = tg.dataclass(rng.randint(0, 2)) if rng.random() < 0.5 else tg.type(rng.randint(0, 2))
             tsrc = tast.render(t)
